@@ -15,6 +15,24 @@ CHECKS = {
               "One open known finding (vanilla opcode 41 shared by meas_basis and mov)."),
         technique="contract-based deductive verification: VCs from symbolic execution of the real serialize/deserialize ASTs, z3 LIA (div/mod encoding of the 56 payload bits)",
         design_ref="5.C01"),
+    "C02": dict(
+        category="proof",
+        text=("Function-against-spec-function: bytes(serialize(x)) == wire.enc(pinned table, x.operands) for every class of every flavour, "
+              "all operand values, discharged by z3; decode of spec-produced bytes; header layout; serialize purity; pinned-table agreement."),
+        technique="contract-based deductive verification: real serialisers vs. a wire-format spec function written from the statement, VCs by symbolic execution, z3 LIA",
+        design_ref="5.C02"),
+    "C15": dict(
+        category="proof",
+        text=("Round-trip contract per message class over all field values in the pinned declared widths, dispatch-table bijection, "
+              "Optional-int entries incl. None for lengths 0..3 (longer arrays by the position-independent element lemma + ctypes array model)."),
+        technique="contract-based deductive verification: per-message round-trip contracts, VCs by symbolic execution of the real __init__/__bytes__/deserialize_from, z3 LIA",
+        design_ref="5.C15"),
+    "C16": dict(
+        category="proof",
+        text=("'Returns normally => decodes to the same operands' for every instruction class and the subroutine header over unbounded "
+              "integers, discharged by z3 (ctypes truncation modelled); assembler and SDK entry routes as labelled bounded stand-ins."),
+        technique="contract-based deductive verification: encode-or-reject contract per shape over all integers, VCs by symbolic execution, z3 LIA; bounded native route checks",
+        design_ref="5.C16"),
 }
 
 NA_REASON = "check not built yet in this session (see DESIGN.md section 5 for the planned contracts)"
